@@ -118,6 +118,15 @@ func Main(args []string) {
 		}
 		return
 	}
+	if len(args) >= 3 && args[0] == "-gen" { // debugging aid: print the case generated for (program seed, variant)
+		var seed int64
+		var variant int
+		fmt.Sscanf(args[1], "%d", &seed)
+		fmt.Sscanf(args[2], "%d", &variant)
+		b, _ := json.MarshalIndent(Generate(seed, variant, genOpts{matrixRef: true, pipeErr: true}), "", " ")
+		fmt.Println(string(b))
+		return
+	}
 	o := common.ParseOpts(args)
 	mainRun(o)
 }
